@@ -486,7 +486,14 @@ func sideTimeOnlyLogger(p *core.Program, f *core.Func, os OrderSource) (bool, st
 	return true, "flows only into logger.startedAt / slog.Duration"
 }
 
+func c04Chains(p *core.Program, r *core.Report) {
+	// R4: "running again on the result of a run changes nothing": the package's tags are merged over the doc comments of
+	// ALL its files - the files a run adds (each with a tag-less package comment) must not change what the next run reads
+	chainRules(p, r, "R4", "C06", []string{"C06.R3"}, "package-level tags are merged over every file of the package")
+}
+
 func runC04(p *core.Program, r *core.Report) {
+	c04Chains(p, r)
 	// replacing a hand-written collect-and-sort by slices.Sorted(maps.Keys()) keeps a source (I2);
 	// flattening a loop over a set into a membership test removes one: the floor only guards against a blind enumerator
 	r.Floor("A2", 14)
